@@ -107,7 +107,7 @@ def ref_time(case):
 
 def ibm_options(case):
     """IBM options beside the module; in one slice an option whose legal value 0.0 differs from the module's default."""
-    return dict(age=True, **(dict(age_rate=0.0) if case["diffusion"] == 2.5 else {}))
+    return dict(age=True, module_state=True, **(dict(age_rate=0.0) if case["diffusion"] == 2.5 else {}))
 
 
 def render_v2(case, d, cols, outname, native_time=False):
